@@ -221,6 +221,8 @@ class CopyAnalysis:
                     return 'fresh', 'comprehension of copies'
                 if isinstance(f, ast.Name) and f.id[:1].isupper():
                     return 'fresh', f'comprehension constructing {f.id}'
+                if dotted(f) in ('attrs.evolve', 'attr.evolve', 'evolve', 'dataclasses.replace'):
+                    return 'fresh', 'comprehension of evolve() copies (carried-over fields are checked per field)'
             return 'shallow', f'new container but its elements `{ast.unparse(elt)}` are the source\'s own mutable objects'
         if isinstance(e, ast.Call):
             f = e.func
@@ -360,6 +362,35 @@ def analyse_copy(ctx: Any, prog: Program, modname: str, clsname: str, meth: str,
             ok = st == 'fresh'
             ctx.check('C09.P2', ok, mod, fn, f'mutable field `{f}` ({ann}) of the copy is {("the same object as " if st == "alias" else "only shallowly copied: ")}{why}; '
                       'mutating one side is visible through the other', func=qual, text=f'{clsname}.{f} <- {ast.unparse(e)[:50]}')
+    # evolve()-style rebuilds: named fields replaced, every other field carried over *by reference*
+    for n in ast.walk(fn):
+        if isinstance(n, ast.ListComp) and isinstance(n.elt, ast.Call) and dotted(n.elt.func) in ('attrs.evolve', 'attr.evolve', 'evolve', 'dataclasses.replace') \
+                and n.elt.args and isinstance(n.generators[0].target, ast.Name) and dotted(n.elt.args[0]) == n.generators[0].target.id:
+            var = n.generators[0].target.id
+            src_ann = None
+            it = n.generators[0].iter
+            if isinstance(it, ast.Attribute) and dotted(it.value) == 'self':
+                src_ann = types.get(it.attr)
+            sub = next((t for t in ann_tokens(src_ann or '') if mod.has_class(t)), None)
+            if sub is None or not is_attrs(mod, sub):
+                raise AnalysisError(f'{qual}: cannot determine the class rebuilt by evolve() over `{ast.unparse(it)}`')
+            stypes = field_types(mod, sub)
+            changed = {k.arg: k.value for k in n.elt.keywords if k.arg}
+            for sf, _ in attrs_fields(mod, sub):
+                if sf in changed:
+                    e = changed[sf]
+                    if is_mutable_ann(stypes.get(sf)):
+                        sca = CopyAnalysis(ctx, prog, mod, sub, fn, {})
+                        st, why = sca.copy_status(e, elements_mutable(stypes.get(sf)), selfname=var)
+                        if st == 'unknown':
+                            raise AnalysisError(f'{qual}: cannot classify `{ast.unparse(e)}` for {sub}.{sf}')
+                        ctx.check('C09.P2', st == 'fresh', mod, n.elt, f'{sub}.{sf} of the rebuilt object aliases the source: {why}', func=qual, text=f'{sub}.{sf} <- {ast.unparse(e)[:40]}')
+                    ctx.check('C09.P1', True, mod, n.elt, 'replaced explicitly', func=qual, text=f'{sub}.{sf} copied')
+                else:
+                    ctx.check('C09.P1', True, mod, n.elt, 'carried over by evolve()', func=qual, text=f'{sub}.{sf} copied')
+                    if is_mutable_ann(stypes.get(sf)):
+                        ctx.check('C09.P2', False, mod, n.elt, f'{sub}.{sf} ({stypes.get(sf)}) is carried over by evolve() *by reference*: the copy and the source share that mutable object',
+                                  func=qual, text=f'{sub}.{sf} <- evolve carry-over')
     # nested field-by-field rebuilds inside comprehensions (DispVertex in Side.copy)
     for n in ast.walk(fn):
         if isinstance(n, ast.ListComp) and isinstance(n.elt, ast.Call) and isinstance(n.elt.func, ast.Name) and mod.has_class(n.elt.func.id) \
